@@ -197,8 +197,42 @@ Definition endpoint (specs : list epspec) (binding : string) : list string :=
   let unspec := flat_map (fun e => match e with Bare u => [u] | EP _ _ => [] end) specs in
   match spec with [] => unspec | _ => spec end.
 
-(* one eIDAS requested attribute as configured, with the two converter look-ups done by the caller
-   of the model (attribute_converters are data of the deployment) *)
+(* an attribute converter (saml2.attribute_converter.AttributeConverter) reduced to what
+   create_requested_attribute_node reads: name_format, _to (friendly name -> name) and _fro (name -> friendly name);
+   from_dict lower-cases the keys of both at load time.  The converters of a deployment are data: the built-in maps
+   are regenerated from the live modules (C13Tables.builtin_convs), the maps of an attribute_map_dir come with the case *)
+Record conv := { cv_format : string; cv_to : list (string * string); cv_fro : list (string * string) }.
+
+Fixpoint sassoc (k : string) (l : list (string * string)) : option string :=
+  match l with
+  | [] => None
+  | (k', v) :: r => if String.eqb k k' then Some v else sassoc k r
+  end.
+
+(* for converter in attribute_converters:
+       try: v = converter.<map>[key]
+       except KeyError: continue
+       else: ...converter.name_format...; break
+   = the entry and the name format of the FIRST converter whose map has the key; later converters are not consulted *)
+Fixpoint first_hit (sel : conv -> list (string * string)) (key : string) (cs : list conv) : option (string * string) :=
+  match cs with
+  | [] => None
+  | c :: r => match sassoc key (sel c) with
+              | Some v => Some (v, cv_format c)
+              | None => first_hit sel key r
+              end
+  end.
+
+Definition mk_conv (x : string * (list (string * string) * list (string * string))) : conv :=
+  {| cv_format := fst x; cv_to := fst (snd x); cv_fro := snd (snd x) |}.
+
+Definition builtin_convs : list conv := map mk_conv builtin_convs_raw.
+
+(* one eIDAS requested attribute as the caller / the configuration spells it: attr.get("name"), attr.get("friendly_name"),
+   attr.get("name_format") (None: key absent or None) and attr.get("required", False) *)
+Record rattr := { rq_name : option string; rq_friendly : option string; rq_format : option string; rq_required : pyv }.
+
+(* the same with the two converter look-ups done *)
 Record reqattr := {
   ra_name : option string; ra_friendly : option string; ra_format : option string;
   ra_required : pyv;                                   (* attr.get("required", False) *)
@@ -223,6 +257,28 @@ Definition ra_step2 (r : reqattr) : option string * option string :=
        | Some (fr, f) => (Some fr, if struthy fmt then fmt else Some f)
        | None => (ra_friendly r, fmt)
        end.
+
+(* the two loops over the converters.  None: "Missing required attribute: 'name' or 'friendly_name'" (ValueError).
+   The first loop runs only when the name is missing (the friendly name is then truthy), the second only when the
+   friendly name is missing (the name - given - is then truthy); the second look-up uses the name the first left *)
+Definition ra_resolve (cs : list conv) (r : rattr) : option reqattr :=
+  if negb (struthy (rq_name r)) && negb (struthy (rq_friendly r)) then None
+  else
+    let q0 := {| ra_name := rq_name r; ra_friendly := rq_friendly r; ra_format := rq_format r; ra_required := rq_required r;
+                 ra_to_hit := match rq_friendly r with Some f => first_hit cv_to (lower f) cs | None => None end;
+                 ra_fro_hit := None |} in
+    Some {| ra_name := rq_name r; ra_friendly := rq_friendly r; ra_format := rq_format r; ra_required := rq_required r;
+            ra_to_hit := ra_to_hit q0;
+            ra_fro_hit := match fst (ra_step1 q0) with Some n => first_hit cv_fro (lower n) cs | None => None end |}.
+
+Fixpoint ra_resolve_all (cs : list conv) (l : list rattr) : option (list reqattr) :=
+  match l with
+  | [] => Some []
+  | r :: t => match ra_resolve cs r, ra_resolve_all cs t with
+              | Some q, Some qs => Some (q :: qs)
+              | _, _ => None
+              end
+  end.
 
 Definition requested_attribute (r : reqattr) : obj :=
   Obj k_extension_requested_attributes_RequestedAttribute
@@ -275,7 +331,8 @@ Record ar_args := {
   ar_cfg_rac : racv;
   ar_cfg_sp_type : option string;
   ar_cfg_sp_type_in_md : option bool;      (* None / True / False *)
-  ar_cfg_reqattrs : list reqattr;
+  ar_cfg_reqattrs : list rattr;           (* requested_attributes of the sp section *)
+  ar_convs : list conv;                    (* config.attribute_converters, in order *)
   ar_signing : signing;
   (* call arguments *)
   ar_destination : option string;
@@ -288,7 +345,7 @@ Record ar_args := {
   ar_extensions : option (list tree);      (* an Extensions instance and its content *)
   ar_sign_prepare : bool;
   ar_allow_create : option string;
-  ar_reqattrs : list reqattr;
+  ar_reqattrs : list rattr;
   (* keyword arguments *)
   ar_kw_acs_urls0 : option string;         (* kwargs.pop("assertion_consumer_service_urls", [None])[0] *)
   ar_kw_acs_url : option string;
@@ -345,6 +402,10 @@ Definition nip_choice (a : ar_args) : option (option string * option string * op
   | None => None
   end.
 
+(* requested_attrs = requested_attributes or config "requested_attributes" or []; None: an item raises *)
+Definition ras_choice (a : ar_args) : option (list reqattr) :=
+  ra_resolve_all (ar_convs a) (match ar_reqattrs a with [] => ar_cfg_reqattrs a | l => l end).
+
 (* eIDAS SPType / RequestedAttributes go into Extensions (created when there is none) *)
 Definition ext_choice (a : ar_args) : option (list tree) :=
   let ext0 := ar_extensions a in
@@ -355,7 +416,7 @@ Definition ext_choice (a : ar_args) : option (list tree) :=
         else ext0
     | _, _ => ext0
     end in
-  let ras := match ar_reqattrs a with [] => ar_cfg_reqattrs a | l => l end in
+  let ras := match ras_choice a with Some l => l | None => [] end in
   match ras with
   | [] => ext1
   | _ => Some (match ext1 with Some c => c | None => [] end ++ [to_tree live_table (requested_attributes_node ras)])
@@ -374,6 +435,7 @@ Definition provider_choice (a : ar_args) : option string :=
 Definition rac_choice (a : ar_args) : racv := if rac_truthy (ar_kw_rac a) then ar_kw_rac a else ar_cfg_rac a.
 
 Definition authn_request (a : ar_args) : option obj :=
+  match ras_choice a with None => None | Some _ =>        (* ValueError of create_requested_attribute_node *)
   match sig_member (ar_signing a) (ar_ob a) with
   | None => None
   | Some sg =>
@@ -390,7 +452,7 @@ Definition authn_request (a : ar_args) : option obj :=
                      (qa "Conditions", map (ORaw (CK k_saml_Conditions)) (opt_list (ar_kw_conditions a)));
                      (qp "RequestedAuthnContext", rac_member (rac_choice a));
                      (qp "Scoping", map (ORaw (CK k_samlp_Scoping)) (opt_list (ar_scoping a)))])
-  end.
+  end end.
 
 (* ------------------------------------------------------------------ status factories (s_utils.py 238-273) *)
 Definition o_status_code (value : string) (inner : list obj) : obj :=
